@@ -97,6 +97,19 @@ def random_calls(r, cfg, length):
             out.append({"call": "exit", "bad": "none", "exc": 0})
         nreg += 1
         out.append({"call": "add", "reg": nreg, "name": "s:top", "offset": -1, "width": 8, "bad": "none"})
+    if r.random() < 0.3:
+        # an exception travels through one or two scopes; registers added afterwards are named by what is left
+        p, q = r.sample(["s:a", "s:b", "s:grp", "i:0", "i:1", "i:7"], 2)
+        out.append({"call": "enter", "part": q, "bad": "none"})
+        out.append({"call": "enter", "part": p, "bad": "none"})
+        nreg += 1
+        out.append({"call": "add", "reg": nreg, "name": "s:in", "offset": -1, "width": 8, "bad": "none"})
+        out.append({"call": "exit", "bad": "none", "exc": 1})
+        nreg += 1
+        out.append({"call": "add", "reg": nreg, "name": "s:mid", "offset": -1, "width": 9, "bad": "none"})
+        out.append({"call": "exit", "bad": "none", "exc": r.randint(0, 1)})
+        nreg += 1
+        out.append({"call": "add", "reg": nreg, "name": "s:out", "offset": -1, "width": 1, "bad": "none"})
     for _ in range(length):
         x = r.random()
         if x < 0.55:
